@@ -35,6 +35,10 @@ Step(e) ==
          /\ (Has(e, "odt_inst") => Check(e.odt_inst = inst /\ e.odt_off = e.off, "offset_date_time_from_aware_datetime_exact"))
          /\ (Has(e, "back_x") => Check(e.back_x = e.x /\ e.back_off = e.off, "aware_datetime_round_trip"))
          /\ (Has(e, "back_utc") => Check(IsDateTimeOf(e.back_utc, inst), "to_datetime_utc_round_trip"))
+    [] e.op = "aware_odt" ->     \* aware datetime -> OffsetDateTime -> back, for every aware datetime (local fields and offset are kept as they are)
+         /\ Check(~Has(e, "exc"), "aware_datetime_converts_to_offset_date_time")
+         /\ (Has(e, "loc") => Check(e.loc = T3OfDateTime(e.x) /\ e.odt_off = e.off /\ e.cal = "ISO", "offset_date_time_from_aware_datetime_exact"))
+         /\ (Has(e, "back_x") => Check(e.back_x = e.x /\ e.back_off = e.off, "aware_datetime_round_trip"))
     [] e.op = "to_aware" ->       \* OffsetDateTime (instant, offset, any calendar) -> aware datetime
          LET loc == Add3(e.inst, OfSeconds(e.off)) IN
          IF loc[1] >= StdMinDay /\ loc[1] <= StdMaxDay
